@@ -42,6 +42,12 @@ func goTypeOf(d sx) reflect.Type {
 			return reflect.TypeOf(float64(0))
 		case "complex":
 			return reflect.TypeOf(complex128(0))
+		case "complex64":
+			return reflect.TypeOf(complex64(0))
+		case "uintgo": // Go `uint`
+			return reflect.TypeOf(uint(0))
+		case "uintptr":
+			return reflect.TypeOf(uintptr(0))
 		case "string":
 			return reflect.TypeOf("")
 		case "time":
@@ -270,6 +276,8 @@ func dumpVal(v reflect.Value) sx {
 		return T("bool", boolSx(v.Bool()))
 	case reflect.Int, reflect.Int8, reflect.Int16, reflect.Int32, reflect.Int64:
 		return T("int", I(v.Int()))
+	case reflect.Uint, reflect.Uint8, reflect.Uint16, reflect.Uint32, reflect.Uint64, reflect.Uintptr:
+		return T("int", U(v.Uint()))
 	case reflect.Float32:
 		if !v.CanAddr() {
 			nv := reflect.New(t).Elem()
@@ -291,6 +299,9 @@ func dumpVal(v reflect.Value) sx {
 		}
 		return out
 	case reflect.Array:
+		if t.Elem().Kind() != reflect.Uint8 {
+			return T("unsupported", A(clean(fmt.Sprint(t))))
+		}
 		b := make([]byte, v.Len())
 		for i := range b {
 			b[i] = byte(v.Index(i).Uint())
